@@ -206,3 +206,11 @@ func Collect(all []*Obj) []string {
 	}
 	return out
 }
+
+func GcdOld(a, b int) int {
+	for b != 0 {
+		r := a % b
+		a, b = b, r
+	}
+	return a
+}
